@@ -1330,6 +1330,8 @@ func exec(line string) (res h.Result) {
 		return execCC(w)
 	case "grp":
 		return execGrp(w)
+	case "rgk":
+		return execRgk(w)
 	case "sig":
 		return execSig(w)
 	case "pk":
